@@ -75,7 +75,9 @@ def render(unit, specdir, outdir):
     def sub(m):
         key = m.group(1)
         if key not in unit.lifts:
-            raise L.LiftError("template %s wants lift '%s' which unit %s does not define" % (unit.template, key, unit.name))
+            # marker belongs to another unit of the same template (inside an inactive #ifdef block); if it
+            # were active the placeholder does not compile, so a forgotten lift cannot pass silently
+            return "VX_NOT_LIFTED_IN_THIS_UNIT(%s)" % key
         used.add(key)
         r = unit.lifts[key].run()
         info["lifted"].append({"key": key, "file": r["file"], "line": r["line"], "loops": r["nloops"],
